@@ -2,6 +2,7 @@
 package main
 
 import (
+	"encoding/json"
 	"fmt"
 	"io"
 	"log"
@@ -57,6 +58,20 @@ func add(s *cases.Set, b []byte, kind string) {
 	reused.Decode(s, nr, b, o)
 	ore, oagain := cq.Err, cq.Err
 	if ok {
+		// a received frame is logged before it is forwarded: rendering must not change it
+		func() {
+			defer func() { _ = recover() }()
+			n := framefmt.DecodedFOptsLen(b)
+			before := framefmt.Phy(q, n)
+			_, _ = json.Marshal(q)
+			_, _ = json.Marshal(&q)
+			_, _ = q.MarshalText()
+			_ = fmt.Sprintf("%+v", q)
+			if after := framefmt.Phy(q, n); after != before {
+				s.Fail(cases.GoFail{Key: fmt.Sprintf("observer-changes-frame:%x", b), What: "json.Marshal / MarshalText / fmt of a decoded frame changed it to " + after,
+					Replay: map[string]interface{}{"bytes": fmt.Sprintf("%x", b), "before": before, "after": after}})
+			}
+		}()
 		var b2 []byte
 		b2, ore = encode(q)
 		if b2 != nil {
@@ -182,6 +197,7 @@ func main() {
 		}
 	}
 	s.ReplayRemembered(nr.Intn, 3, func() { noise.Step(nr) })
+	s.ReplayConcurrently(8, 2, 60*time.Second)
 	if err := s.Finish(); err != nil {
 		fmt.Fprintln(os.Stderr, err)
 		os.Exit(2)
